@@ -93,9 +93,34 @@ def output_body_deviates(rep, ty):
     return False
 
 
+def root_deviates(rep, ty):
+    """real build: the response document of the operation whose output this is starts with a root element the model does not name"""
+    import re as _re
+    import C03
+    import C13
+    from vlib.smithy import Model
+    model = Model()
+    want = C13.expected_roots(model, ty)
+    ops = [ty[:-6]] if ty.endswith("Output") and ty[:-6] in model.ops else [
+        op for op in model.ops for n_, m in (model.output_shape(op) or {}).get("members", {}).items()
+        if "smithy.api#httpPayload" in m.get("traits", {}) and m["target"].split("#")[-1] == ty]
+    for op in ops[:3]:
+        out = replay.run_scenarios([{"config": {}, "request": C03.model_request(op, C03.BODIES.get(op)), "backend": {"output": {"fill": True}}}])[0]
+        rep.traces_validated += 1
+        m = _re.search(r"<([A-Za-z][A-Za-z0-9]*)[ >/]", _re.sub(r"<\?xml[^>]*\?>", "", out.get("body_text", "")))
+        if m and want and m.group(1) not in want:
+            return True
+    return False
+
+
 def confirm(rep, key, what, data):
     kind = key.split(":")[0]
     ty = key.split(":")[1].split(".")[0]
+    if kind == "root-name-model":
+        try:
+            return root_deviates(rep, ty)
+        except Exception:      # noqa: BLE001
+            return False
     if ty.endswith("Output") and kind in ("name-missing", "name-extra", "list-shape", "element-binding", "ser"):
         try:
             return output_body_deviates(rep, ty)
